@@ -1,0 +1,21 @@
+//go:build verif
+
+// Verification hook (build tag `verif`): the clock this plugin reads can be skewed, so that a
+// history can start in the past and let leases run out without waiting for them.
+
+package prefix
+
+import (
+	"sync/atomic"
+	"time"
+)
+
+var verifClockSkew atomic.Int64
+
+// VerifSetClockSkew makes the plugin's clock read wall clock + d
+func VerifSetClockSkew(d time.Duration) { verifClockSkew.Store(int64(d)) }
+
+// VerifNow is the time the plugin sees
+func VerifNow() time.Time { return timeNow() }
+
+func timeNow() time.Time { return time.Now().Add(time.Duration(verifClockSkew.Load())) }
